@@ -5,8 +5,8 @@ import OomdModel.Generated.Consts
 # C09 — each kill plugin's first choice follows its documented ranking policy
 
 Property theorems only; the model is `OomdModel.Rank` (the code with the repairs proposed in
-`/verif/fixes/C09-*.patch`; the unrepaired behaviour is `Variant.legacy`), helper lemmas are in
-`OomdProofs.Rank`.
+`/verif/fixes/C09-*.patch` and the `min_growth_ratio` repair already in `/repo`; the unrepaired behaviour
+is `Variant.legacy`), helper lemmas are in `OomdProofs.Rank`.
 
 `Admissible lt entries out` says that `out` is an order `sortDescWithKillPrefs` (an unstable
 `std::sort`) may return for `entries`: every theorem below quantifies over **all** such orders, all
